@@ -85,6 +85,12 @@ Proof.
   cbn [map combine csv_lines_from fst snd]. f_equal. apply IH.
 Qed.
 
+Lemma cells_printed diff negate es sel c cols : forall total,
+  cells diff negate es sel c cols total = map to_string (cell_amounts diff negate es sel c cols total).
+Proof.
+  induction cols as [|col rest IH]; intros total; cbn [cells cell_amounts map]; [reflexivity|]. rewrite IH. reflexivity.
+Qed.
+
 (* the lines of the ledger for one row, as a block *)
 Lemma lines_for_block diff negate es sel name cols :
   lines_for diff negate es sel name cols =
@@ -94,9 +100,7 @@ Proof.
   unfold lines_for, csv_block. destruct (shown_commodities es sel cols) as [|c0 coms] eqn:E.
   - rewrite map_const_repeat. reflexivity.
   - rewrite <- (combine_lines name (fun c => map to_string (cell_amounts diff negate es sel c cols dec_nil)) (c0 :: coms) true).
-    apply map_ext. intros [b c]. cbn [fst snd]. f_equal. f_equal.
-    clear. generalize dec_nil. induction cols as [|col rest IH]; intros total; cbn [cells cell_amounts map]; [reflexivity|].
-    rewrite IH. reflexivity.
+    apply map_ext. intros [b c]. cbn [fst snd]. f_equal. f_equal. apply cells_printed.
 Qed.
 
 Lemma nums_csv nums amts : Forall2 num_is nums amts -> map csv_cell nums = map to_string amts.
@@ -275,3 +279,190 @@ Proof.
   - apply to_string_value. destruct negate, diff; rewrite ?dvalue_neg, ?dvalue_add, ?Ht, ?H; reflexivity.
   - apply IH. rewrite !dvalue_add, Ht, H. reflexivity.
 Qed.
+
+(* ------------------------------------------------------------ assembly *)
+
+Section Csv.
+  Variables (cfg : balance_cfg) (ds : list sdirective) (r : report) (part : partition) (dl : list directive).
+  Hypothesis Hv : bc_valuation cfg = None.
+  Hypothesis Hrun : balance_report cfg ds = COk (r, part).
+  Hypothesis Hp : parse_directives ds = MOk dl.
+  Hypothesis Hsyn : postings_syntactic dl.
+
+  Let es := ledger_entries cfg dl part.
+  Let rc := balance_render_cfg cfg.
+  Let dates := end_dates part.
+  Let al := filter is_AL_entry es.
+  Let eie := filter (fun e => negb (is_AL_entry e)) es.
+  Let all_sel := fun _ : account => true.
+  Let side (b : bool) := if b then al else eie.
+
+  (* the order of the account rows (discharged in BalanceCsvOrder.v for --sort-alphabetically) *)
+  Hypothesis Horder_al : map l_path (flat_map tree_lines (n_children (sorted_al rc r))) = all_rows al.
+  Hypothesis Horder_eie : map l_path (flat_map tree_lines (n_children (sorted_eie rc r))) = all_rows eie.
+
+  Lemma Hrows_ok : forall x, In x (rows r) -> account_ok x = true.
+  Proof. exact (Hacc cfg ds r part dl Hv Hrun Hp Hsyn). Qed.
+
+  Lemma entry_ok e : In e es -> account_ok (e_acc e) = true.
+  Proof. destruct e as [[[col a] c] v]. intros H. exact (ledger_entry_account_ok cfg dl part col a c v Hsyn H). Qed.
+
+  Lemma is_AL_entry_acc e : is_AL_entry e = is_AL (e_acc e).
+  Proof. destruct e as [[[col a] c] v]. reflexivity. Qed.
+
+  Lemma side_filter b : side b = filter (fun e => Bool.eqb (is_AL_entry e) b) es.
+  Proof.
+    unfold side, al, eie. destruct b; apply filter_ext; intros e; destruct (is_AL_entry e); reflexivity.
+  Qed.
+
+  (* the amounts of one row are those of its side *)
+  Lemma side_row_amount b row c col : account_ok row = true -> is_AL row = b ->
+    period_amount (side b) (acc_eqb row) c col = period_amount es (acc_eqb row) c col.
+  Proof.
+    intros Hok Hb. rewrite side_filter. apply period_amount_filter. intros e He.
+    destruct (Bool.eqb (is_AL_entry e) b) eqn:E; [reflexivity|].
+    destruct (acc_eqb row (e_acc e)) eqn:Ea; [|reflexivity]. exfalso.
+    apply acc_eqb_name in Ea. apply acc_name_inj in Ea; [|exact Hok|exact (entry_ok e He)].
+    rewrite is_AL_entry_acc, <- Ea, Hb, Bool.eqb_reflx in E. discriminate.
+  Qed.
+
+  Lemma side_total_amount b c col :
+    period_amount (side b) all_sel c col = period_amount es (fun a => if b then is_AL a else negb (is_AL a)) c col.
+  Proof.
+    rewrite side_filter. apply period_amount_filter. intros e _. rewrite is_AL_entry_acc. unfold all_sel.
+    destruct b, (is_AL (e_acc e)); reflexivity.
+  Qed.
+
+  Lemma al_total_amount c col : period_amount al all_sel c col = period_amount es is_AL c col.
+  Proof. exact (side_total_amount true c col). Qed.
+
+  Lemma eie_total_amount c col : period_amount eie all_sel c col = period_amount es (fun a => negb (is_AL a)) c col.
+  Proof. exact (side_total_amount false c col). Qed.
+
+  Lemma delta_amount c col :
+    dvalue (period_amount (al ++ eie) all_sel c col) == dvalue (period_amount es all_sel c col).
+  Proof.
+    rewrite !period_amount_q, qsum_app. unfold al, eie. apply qsum_filter_split.
+  Qed.
+
+  Lemma tw_dates : tw rc dates = (2 + length dates)%nat.
+  Proof. unfold tw, draw_comms, rc, balance_render_cfg. cbn [rc_valuation]. rewrite Hv. reflexivity. Qed.
+
+  Lemma cell_amounts_nonempty diff negate es0 sel c cols t : cols <> [] -> cell_amounts diff negate es0 sel c cols t <> [].
+  Proof. destruct cols; [contradiction|]. intros _. cbn [cell_amounts]. discriminate. Qed.
+
+  Lemma dates_nonempty col : In col dates -> dates <> [].
+  Proof. intros H E. rewrite E in H. destruct H. Qed.
+
+  (* one account block *)
+  Lemma row_csv b row a : In (row, a) (account_rows rc r) -> is_AL row = b ->
+    csvf (acct_lines rc dates row a) = lines_for (bc_diff cfg) (negb b) (side b) (acc_eqb row) (last_seg row) dates.
+  Proof.
+    intros Hin Hb.
+    assert (Hok : account_ok row = true).
+    { apply Hrows_ok. eapply Permutation_in; [apply account_rows_paths|]. apply in_map_iff. exists (row, a). split; [reflexivity|exact Hin]. }
+    pose proof (commodity_line_iff_sec cfg ds r part dl Hv Hrun Hp Hsyn) as H. cbv zeta in H.
+    destruct (H row a Hin) as (coms & Hs & Hm & Hb0). clear H. fold rc es dates in Hm, Hb0.
+    rewrite tw_dates in Hb0. rewrite Hb in Hb0.
+    rewrite (block_csv _ _ _ _ _ _ Hb0).
+    2: { exact (last_account_ok row Hok). }
+    2: { intros c Hc. apply cell_amounts_nonempty. apply Hm in Hc. destruct Hc as (col & Hcol & _). exact (dates_nonempty col Hcol). }
+    rewrite lines_for_block. unfold last_seg.
+    assert (Ecoms : coms = shown_commodities (side b) (acc_eqb row) dates).
+    { apply coms_sorted_ext; [exact Hs|apply shown_sorted|]. intros c. rewrite Hm, shown_in.
+      split; intros (col & Hcol & Hnz); exists col; (split; [exact Hcol|]);
+        [rewrite (side_row_amount b row c col Hok Hb)|rewrite <- (side_row_amount b row c col Hok Hb)]; exact Hnz. }
+    rewrite <- Ecoms. apply csv_block_ext. intros c _.
+    apply cell_amounts_value; [|reflexivity]. intros col. rewrite (side_row_amount b row c col Hok Hb). reflexivity.
+  Qed.
+
+  Let Hok := balance_report_ok _ _ _ _ Hrun.
+
+  (* one section: the blocks of a tree *)
+  Lemma section_csv (b : bool) :
+    map l_path (flat_map tree_lines (n_children (if b then sorted_al rc r else sorted_eie rc r))) = all_rows (side b) ->
+    csvf (section_rows rc dates (negb b) (n_children (if b then sorted_al rc r else sorted_eie rc r))) =
+    concat (map (fun row => lines_for (bc_diff cfg) (negb b) (side b) (acc_eqb row) (last_seg row) dates) (all_rows (side b))).
+  Proof.
+    intros Hord. set (root := if b then sorted_al rc r else sorted_eie rc r) in *.
+    destruct Hok as ((W1 & W2 & P1 & P2) & S1 & S2 & T1 & T2 & _).
+    assert (Hty : forall x, In x (cpaths (n_children root)) -> is_AL x = b).
+    { intros x Hx. unfold root in Hx. destruct b; apply cpaths_sort_in in Hx; [exact (T1 x Hx)|exact (T2 x Hx)]. }
+    assert (Hblocks : flat_map (node_blocks rc dates 0 (negb b)) (n_children root) =
+                      map (line_block rc dates) (flat_map tree_lines (n_children root))).
+    { apply top_blocks_lines.
+      - unfold root. destruct b; apply node_sort_wf; assumption.
+      - unfold root, sorted_al, sorted_eie. destruct b; rewrite node_sort_path; assumption.
+      - intros x Hx. rewrite (Hty x Hx). reflexivity. }
+    unfold section_rows. rewrite csvf_concat, map_map.
+    rewrite (map_ext _ (fun top => concat (map (fun bl => csvf (snd bl)) (node_blocks rc dates 0 (negb b) top)))).
+    2: { intros top. rewrite csvf_app, csvf_empty, app_nil_r. unfold blocks_rows. rewrite csvf_concat, map_map. reflexivity. }
+    rewrite <- concat_map_flat_map, Hblocks, map_map.
+    rewrite <- Hord, map_map. f_equal. apply map_ext_in. intros l Hl. unfold line_block. cbn [snd].
+    apply row_csv.
+    - unfold account_rows. apply in_map_iff. exists l. split; [destruct l as [[s p] a]; reflexivity|].
+      apply in_or_app. unfold root in Hl. destruct b; [left|right]; exact Hl.
+    - apply Hty. rewrite <- clines_paths. apply in_map. exact Hl.
+  Qed.
+
+  Lemma totals_csv :
+    let total_al := node_totals (total_key rc) (sorted_al rc r) [] in
+    let total_eie := node_totals (total_key rc) (sorted_eie rc r) [] in
+    csvf (line_rows rc dates 0 s_TotalAL false total_al) = lines_for (bc_diff cfg) false al all_sel s_TotalAL dates /\
+    csvf (line_rows rc dates 0 s_TotalEIE true total_eie) = lines_for (bc_diff cfg) true eie all_sel s_TotalEIE dates /\
+    csvf (line_rows rc dates 0 s_Delta false (ra_plus total_al total_eie)) = delta_lines (bc_diff cfg) al eie dates.
+  Proof.
+    cbv zeta. pose proof (total_lines_listed cfg ds r part dl Hv Hrun Hp Hsyn) as H. cbv zeta in H.
+    fold rc es dates in H. destruct H as (coms_al & coms_eie & coms_delta & (Sa & Ma & Ba) & (Se & Me & Be) & (Sd & Md & Bd)).
+    rewrite tw_dates in Ba, Be, Bd.
+    assert (Ea : coms_al = shown_commodities al all_sel dates).
+    { apply coms_sorted_ext; [exact Sa|apply shown_sorted|]. intros c. rewrite Ma, shown_in.
+      split; intros (col & Hcol & Hnz); exists col; (split; [exact Hcol|]);
+        [rewrite al_total_amount|rewrite <- al_total_amount]; exact Hnz. }
+    assert (Ee : coms_eie = shown_commodities eie all_sel dates).
+    { apply coms_sorted_ext; [exact Se|apply shown_sorted|]. intros c. rewrite Me, shown_in.
+      split; intros (col & Hcol & Hnz); exists col; (split; [exact Hcol|]);
+        [rewrite eie_total_amount|rewrite <- eie_total_amount]; exact Hnz. }
+    split; [|split].
+    - rewrite (block_csv _ _ _ _ _ _ Ba); [|discriminate|].
+      2: { intros c Hc. apply cell_amounts_nonempty. apply Ma in Hc. destruct Hc as (col & Hcol & _). exact (dates_nonempty col Hcol). }
+      rewrite lines_for_block, <- Ea. apply csv_block_ext. intros c _.
+      apply cell_amounts_value; [|reflexivity]. intros col. rewrite al_total_amount. reflexivity.
+    - rewrite (block_csv _ _ _ _ _ _ Be); [|discriminate|].
+      2: { intros c Hc. apply cell_amounts_nonempty. apply Me in Hc. destruct Hc as (col & Hcol & _). exact (dates_nonempty col Hcol). }
+      rewrite lines_for_block, <- Ee. apply csv_block_ext. intros c _.
+      apply cell_amounts_value; [|reflexivity]. intros col. rewrite eie_total_amount. reflexivity.
+    - rewrite (block_csv _ _ _ _ _ _ Bd); [|discriminate|].
+      2: { intros c Hc. apply cell_amounts_nonempty. apply Md in Hc.
+           destruct Hc as [Hc|Hc]; [apply Ma in Hc|apply Me in Hc]; destruct Hc as (col & Hcol & _); exact (dates_nonempty col Hcol). }
+      assert (Ed : coms_delta = union_com (shown_commodities al all_sel dates) (shown_commodities eie all_sel dates)).
+      { apply coms_sorted_ext; [exact Sd|apply union_com_sorted, shown_sorted|]. intros c.
+        rewrite Md, union_com_in, <- Ea, <- Ee. reflexivity. }
+      unfold delta_lines. fold all_sel. rewrite <- Ed. unfold csv_block. destruct coms_delta as [|c0 coms'].
+      + rewrite map_const_repeat. reflexivity.
+      + rewrite <- (combine_lines s_Delta (fun c => map to_string (cell_amounts (bc_diff cfg) false es all_sel c dates dec_nil)) (c0 :: coms') true).
+        apply map_ext. intros [b0 c]. cbn [fst snd]. f_equal. f_equal.
+        rewrite cells_printed. symmetry. apply cell_amounts_value; [|reflexivity]. intros col. apply delta_amount.
+  Qed.
+
+  Lemma header_csv : csvf [header_cells rc dates] = [header_row dates].
+  Proof.
+    unfold csvf, header_cells, header_row, draw_comms, rc, balance_render_cfg. cbn [rc_valuation]. rewrite Hv.
+    cbn [map app csv_cell filter nonblank existsb s_Account]. rewrite map_map. cbn [csv_cell]. reflexivity.
+  Qed.
+
+  Theorem csv_rows_ledger :
+    exists rows, ledger_csv cfg dl = Some rows /\ render_csv_rows (render_report rc r dates) = rows.
+  Proof.
+    destruct (report_cells cfg ds r part Hv Hrun) as (dl' & Hp' & Hpart & _). rewrite Hp in Hp'. inversion Hp'; subst dl'. clear Hp'.
+    unfold ledger_csv. rewrite Hv, Hpart. eexists. split; [reflexivity|].
+    rewrite render_csv_rows_csvf, render_report_layout. unfold report_table_rows. cbv zeta.
+    destruct totals_csv as (Ta & Te & Td). cbv zeta in Ta, Te, Td.
+    pose proof (section_csv true Horder_al) as Sa. pose proof (section_csv false Horder_eie) as Se.
+    cbn [negb] in Sa, Se. unfold side in Sa, Se.
+    change ([repeat CSep (tw rc dates); header_cells rc dates; repeat CSep (tw rc dates)])
+      with ([repeat CSep (tw rc dates)] ++ [header_cells rc dates] ++ [repeat CSep (tw rc dates)]).
+    rewrite !csvf_app, !csvf_sep, header_csv, Sa, Ta, Se, Te, Td. cbn [app]. rewrite !app_nil_r.
+    reflexivity.
+  Qed.
+End Csv.
